@@ -1,5 +1,252 @@
-import XpmVerif.Proofs.IdentPerm
+import XpmVerif.Proofs.InjectIdeal
+/-! C03 — configurations with different signatures never share an identifier.
+
+    All statements are about the specification `encVal`/`nodeStream`/`rawAt`/`rawId`/`fullId` of
+    Model/Ident.lean.  The *signature* of a value is `canon cfg mt v : SVal` (members flagged `meta = True`
+    dropped, dict items sorted by key, bool/int packed, references replaced by what the stream holds for
+    them); the signature of a node is (producing-task part, type identifier, `sigArgs` = sorted
+    (name, signature value) of the *included* arguments).
+
+    Domain (hypotheses): text (strings, enum names, dict keys, argument names, type identifiers) contains no
+    byte `< 13` (`noTag`); list lengths `< 2^53`; floats are 64-bit patterns; argument types satisfy the
+    decidable predicate `ok` (`Ty.Unamb`, DESIGN §4); *ideal hash*: `H` injective and a digest embedded in a
+    stream is one token `256 + d` (`hinj`, `hemb`; satisfiable: `idealHC`).
+
+    Outside the domain the statements are false for the model *and* the real code (witnesses below):
+    a type that is not `ok` (known finding F2) and text with control characters. -/
 namespace XpmVerif.C03
-open XpmVerif.Ident
-theorem placeholder_trivial : True := trivial
+open XpmVerif.Ident XpmVerif.Ident.Wit List
+
+/-! ## values -/
+
+/-- the bytes hashed for a value are the encoding of its signature value `canon … v`: values with the same
+    signature are hashed identically (the converse direction of the property, here as the definition of
+    "signature" used below). -/
+theorem stream_is_encoding_of_signature (cfg : Nat → List Nat) (mt : Nat → Option Bool) (v : Val) :
+    encVal cfg mt v = encS (canon cfg mt v) :=
+  encVal_eq_encS_canon cfg mt v
+
+/-- the list-length prefix (`struct.pack("!d", len)`, an IEEE double) determines the length below `2^53`. -/
+theorem list_length_prefix_injective {n m : Nat} (hn : n < 2^53) (hm : m < 2^53)
+    (h : f64OfNat n = f64OfNat m) : n = m :=
+  f64OfNat_inj hn hm h
+
+/-- **stream injectivity on signature values** (the core, type-directed): for an unambiguous type `t`, two
+    well-typed signature values followed by continuations that are `safe` (empty or starting with a tag) and
+    `Avoid (need t)` (not of the shape `03 key tag …` with `tag ∈ need t`): equal streams ⇒ equal values and
+    equal continuations.  Strings, enum names and dicts carry no length and no terminator. -/
+theorem signature_value_stream_injective (t : STy) (hok : ok t) (v1 v2 : SVal) (r1 r2 : List Nat)
+    (h1 : wt t v1) (h2 : wt t v2) (hr1 : safe r1) (hr2 : safe r2)
+    (ha1 : Avoid (need t) r1) (ha2 : Avoid (need t) r2)
+    (h : encS v1 ++ r1 = encS v2 ++ r2) : v1 = v2 ∧ r1 = r2 :=
+  encS_inj t hok v1 v2 r1 r2 h1 h2 hr1 hr2 ha1 ha2 h
+
+/-- **stream injectivity on model values**: two values of the declared unambiguous type `t` (possibly in
+    different graphs: different `cfg`, `mt`) with equal hashed bytes have the same signature. -/
+theorem value_stream_injective (cfg1 cfg2 : Nat → List Nat) (mt1 mt2 : Nat → Option Bool)
+    (hc1 : ∀ m, wtObj (cfg1 m)) (hc2 : ∀ m, wtObj (cfg2 m)) (t : STy) (hok : ok t) (v1 v2 : Val)
+    (r1 r2 : List Nat) (h1 : VT mt1 t v1) (h2 : VT mt2 t v2) (hr1 : safe r1) (hr2 : safe r2)
+    (ha1 : Avoid (need t) r1) (ha2 : Avoid (need t) r2)
+    (h : encVal cfg1 mt1 v1 ++ r1 = encVal cfg2 mt2 v2 ++ r2) :
+    canon cfg1 mt1 v1 = canon cfg2 mt2 v2 ∧ r1 = r2 :=
+  encVal_inj cfg1 cfg2 mt1 mt2 hc1 hc2 t hok v1 v2 r1 r2 h1 h2 hr1 hr2 ha1 ha2 h
+
+/-- what follows an argument value in a node stream — the end of the stream or `03 name 05 …` — satisfies
+    the side conditions for every type (`05` is never a value tag, so never in `need t`). -/
+theorem argument_boundary_admissible (t : STy) (name rest : List Nat) (hn : noTag name) :
+    (safe [] ∧ Avoid (need t) []) ∧
+    (safe (3 :: name ++ 5 :: rest) ∧ Avoid (need t) (3 :: name ++ 5 :: rest)) := by
+  refine ⟨⟨trivial, avoid_nil _⟩, by simp [safe], ?_⟩
+  intro k t' rest' hk ht' heq
+  simp only [cons_append, cons.injEq, true_and] at heq
+  have := str_split hn hk (r1 := 5 :: rest) (r2 := t' :: rest') (by simp [safe]) (need_lt t ht') heq
+  have e : 5 = t' := by have := this.2; simp only [cons.injEq] at this; exact this.1
+  exact name_tag_not_needed t (e ▸ ht')
+
+/-- the signature value of an int64 determines the integer (no wrap-around inside the range). -/
+theorem int_signature_injective (cfg1 cfg2 : Nat → List Nat) (mt1 mt2 : Nat → Option Bool) (i j : Int)
+    (hi : -2^63 ≤ i ∧ i < 2^63) (hj : -2^63 ≤ j ∧ j < 2^63)
+    (h : canon cfg1 mt1 (.int i) = canon cfg2 mt2 (.int j)) : i = j :=
+  canon_int_inj cfg1 cfg2 mt1 mt2 i j hi hj h
+
+/-- equal dict signatures ⇒ the kept items agree up to order (with `C01`'s `encVal_dict_perm` the signature
+    of a dict is exactly its set of kept items). -/
+theorem dict_signature_items (cfg1 cfg2 : Nat → List Nat) (mt1 mt2 : Nat → Option Bool)
+    (ks1 ks2 : List (List Nat)) (vs1 vs2 : List Val)
+    (h : canon cfg1 mt1 (.dict ks1 vs1) = canon cfg2 mt2 (.dict ks2 vs2)) :
+    canonPairs cfg1 mt1 ks1 vs1 ~ canonPairs cfg2 mt2 ks2 vs2 :=
+  canon_dict_items_perm cfg1 cfg2 mt1 mt2 ks1 ks2 vs1 vs2 h
+
+/-! ## nodes -/
+
+/-- the stream hashed for a node is a function of its signature parts. -/
+theorem node_stream_of_signature (cfg : Nat → List Nat) (mt : Nat → Option Bool) (self : Nat) (nd : Node) :
+    nodeStream cfg mt self nd
+      = 0 :: (taskPart cfg self nd ++ (nd.typeId ++ encArgs (sigArgs cfg mt nd))) :=
+  nodeStream_eq cfg mt self nd
+
+/-- **node stream injectivity**: two nodes (possibly of different graphs) whose classes declare the same
+    argument types whenever their type identifiers agree (`hτ`; in particular two nodes of one class
+    library), with control-free type identifiers and well-typed included arguments of unambiguous types:
+    equal streams ⇒ same producing-task part, same type identifier, same sorted list of
+    (name, signature value) of the included arguments. -/
+theorem node_stream_injective (τ1 τ2 : List Nat → STy) (cfg1 cfg2 : Nat → List Nat)
+    (mt1 mt2 : Nat → Option Bool) (self1 self2 : Nat) (nd1 nd2 : Node)
+    (hc1 : ∀ m, wtObj (cfg1 m)) (hc2 : ∀ m, wtObj (cfg2 m))
+    (ht1 : noTag nd1.typeId) (ht2 : noTag nd2.typeId)
+    (hτ : nd1.typeId = nd2.typeId → τ1 = τ2)
+    (hw1 : ArgsTyped τ1 mt1 nd1) (hw2 : ArgsTyped τ2 mt2 nd2)
+    (h : nodeStream cfg1 mt1 self1 nd1 = nodeStream cfg2 mt2 self2 nd2) :
+    taskPart cfg1 self1 nd1 = taskPart cfg2 self2 nd2 ∧ nd1.typeId = nd2.typeId ∧
+      sigArgs cfg1 mt1 nd1 = sigArgs cfg2 mt2 nd2 :=
+  nodeStream_inj τ1 τ2 cfg1 cfg2 mt1 mt2 self1 self2 nd1 nd2 hc1 hc2 ht1 ht2 hτ
+    (wtArgs_of_typed τ1 cfg1 mt1 hc1 nd1 hw1) (wtArgs_of_typed τ2 cfg2 mt2 hc2 nd2 hw2) h
+
+/-! ## identifiers (ideal hash) -/
+
+/-- **one step**: equal raw identifiers ⇒ equal hashed node streams (`cfgAt` is how `rawId` encodes the
+    references below the node: cycle reference or digest token). -/
+theorem raw_identifier_stream (hc : HC Nat) (hinj : ∀ a b, hc.H a = hc.H b → a = b) (g1 g2 : Graph) (n1 n2 : Nat)
+    (h : rawId hc g1 n1 = rawId hc g2 n2) :
+    nodeStream (cfgAt hc g1 g1.size [n1]) g1.mt n1 (g1.node n1)
+      = nodeStream (cfgAt hc g2 g2.size [n2]) g2.mt n2 (g2.node n2) :=
+  rawAt_stream hc hinj g1 g2 g1.size g2.size [] [] n1 n2 h
+
+/-- **raw identifier ⇒ signature of the node, one level**, at any point of the computation (`rawId` is the
+    case `f = size`, `s = []`): equal raw identifiers ⇒ same producing-task part, same type identifier, same
+    (name, signature value) list; nested configurations appear in the signature values as their digest
+    tokens `256 + rawAt …`, to which the statement applies again. -/
+theorem raw_identifier_signature_step (hc : HC Nat) (hinj : ∀ a b, hc.H a = hc.H b → a = b)
+    (hemb : ∀ d, hc.emb d = [256 + d]) (τ1 τ2 : List Nat → STy) (g1 g2 : Graph) (f1 f2 : Nat)
+    (s1 s2 : List Nat) (n1 n2 : Nat) (hs1 : s1.length + 1 < 2^64) (hs2 : s2.length + 1 < 2^64)
+    (ht1 : noTag (g1.node n1).typeId) (ht2 : noTag (g2.node n2).typeId)
+    (hτ : (g1.node n1).typeId = (g2.node n2).typeId → τ1 = τ2)
+    (hw1 : ArgsTyped τ1 g1.mt (g1.node n1)) (hw2 : ArgsTyped τ2 g2.mt (g2.node n2))
+    (h : rawAt hc g1 (f1 + 1) s1 n1 = rawAt hc g2 (f2 + 1) s2 n2) :
+    taskPart (cfgAt hc g1 f1 (n1 :: s1)) n1 (g1.node n1) = taskPart (cfgAt hc g2 f2 (n2 :: s2)) n2 (g2.node n2) ∧
+    (g1.node n1).typeId = (g2.node n2).typeId ∧
+    sigArgs (cfgAt hc g1 f1 (n1 :: s1)) g1.mt (g1.node n1) = sigArgs (cfgAt hc g2 f2 (n2 :: s2)) g2.mt (g2.node n2) :=
+  rawAt_inj_step hc hinj hemb τ1 τ2 g1 g2 f1 f2 s1 s2 n1 n2 hs1 hs2 ht1 ht2 hτ hw1 hw2 h
+
+/-- **different signatures never share a raw identifier** (contrapositive of the step, for `rawId`): if the
+    type identifiers, the producing-task parts or the (name, signature value) lists of the included
+    arguments differ, the raw identifiers differ. -/
+theorem different_signature_different_raw_identifier (hc : HC Nat) (hinj : ∀ a b, hc.H a = hc.H b → a = b)
+    (hemb : ∀ d, hc.emb d = [256 + d]) (τ1 τ2 : List Nat → STy) (g1 g2 : Graph) (n1 n2 : Nat)
+    (ht1 : noTag (g1.node n1).typeId) (ht2 : noTag (g2.node n2).typeId)
+    (hτ : (g1.node n1).typeId = (g2.node n2).typeId → τ1 = τ2)
+    (hw1 : ArgsTyped τ1 g1.mt (g1.node n1)) (hw2 : ArgsTyped τ2 g2.mt (g2.node n2))
+    (hd : (g1.node n1).typeId ≠ (g2.node n2).typeId ∨
+      taskPart (cfgAt hc g1 g1.size [n1]) n1 (g1.node n1) ≠ taskPart (cfgAt hc g2 g2.size [n2]) n2 (g2.node n2) ∨
+      sigArgs (cfgAt hc g1 g1.size [n1]) g1.mt (g1.node n1) ≠ sigArgs (cfgAt hc g2 g2.size [n2]) g2.mt (g2.node n2)) :
+    rawId hc g1 n1 ≠ rawId hc g2 n2 := by
+  intro h
+  have := rawAt_inj_step hc hinj hemb τ1 τ2 g1 g2 g1.size g2.size [] [] n1 n2 (by decide) (by decide)
+    ht1 ht2 hτ hw1 hw2 h
+  rcases hd with hd | hd | hd
+  · exact hd this.2.1
+  · exact hd this.1
+  · exact hd this.2.2
+
+/-- **the signature at every depth**: for graphs over one class library `lib` (type identifier ↦ argument
+    name ↦ unambiguous type), equal raw identifiers under the ideal hash ⇒ equal raw identifiers under *every*
+    hash structure `hc'` (arbitrary digest type, no assumption): the two configurations agree on everything
+    any identifier of this family can depend on — type identifiers, producing tasks, included argument names
+    and values, recursively through all nested configurations and cycle references. -/
+theorem raw_identifier_signature_every_depth {D' : Type} (hc : HC Nat) (hinj : ∀ a b, hc.H a = hc.H b → a = b)
+    (hemb : ∀ d, hc.emb d = [256 + d]) (hc' : HC D') (lib : List Nat → List Nat → STy) (g1 g2 : Graph)
+    (hg1 : LibTyped lib g1) (hg2 : LibTyped lib g2) (hz1 : g1.size + 1 < 2^64) (hz2 : g2.size + 1 < 2^64)
+    (n1 n2 : Nat) (h : rawId hc g1 n1 = rawId hc g2 n2) : rawId hc' g1 n1 = rawId hc' g2 n2 :=
+  rawAt_hash_independent hc hinj hemb hc' lib (g1.size + 1) (g2.size + 1) g1 g2 [] [] n1 n2 hg1 hg2
+    (by simpa using hz1) (by simpa using hz2) h
+
+/-- in particular: equal raw identifiers ⇒ equal *fully expanded* streams (`expandHC`: nothing digested,
+    every nested configuration inlined between brackets). -/
+theorem raw_identifier_determines_expanded_stream (hc : HC Nat) (hinj : ∀ a b, hc.H a = hc.H b → a = b)
+    (hemb : ∀ d, hc.emb d = [256 + d]) (lib : List Nat → List Nat → STy) (g1 g2 : Graph)
+    (hg1 : LibTyped lib g1) (hg2 : LibTyped lib g2) (hz1 : g1.size + 1 < 2^64) (hz2 : g2.size + 1 < 2^64)
+    (n1 n2 : Nat) (h : rawId hc g1 n1 = rawId hc g2 n2) : rawId expandHC g1 n1 = rawId expandHC g2 n2 :=
+  raw_identifier_signature_every_depth hc hinj hemb expandHC lib g1 g2 hg1 hg2 hz1 hz2 n1 n2 h
+
+/-- **full identifier**: equal full identifiers ⇒ equal raw identifier, equal sorted pre-task identifiers,
+    equal sequence of init-task identifiers (the `0c` marker separates; digests are tokens `≥ 256`). -/
+theorem full_identifier_injective (hc : HC Nat) (hinj : ∀ a b, hc.H a = hc.H b → a = b)
+    (hemb : ∀ d, hc.emb d = [256 + d]) (g1 g2 : Graph) (n1 n2 : Nat) (h : fullId hc g1 n1 = fullId hc g2 n2) :
+    rawId hc g1 n1 = rawId hc g2 n2 ∧
+    sortBy hc.le ((collectPreTasks g1 n1).map (rawId hc g1)) = sortBy hc.le ((collectPreTasks g2 n2).map (rawId hc g2)) ∧
+    (g1.node n1).initTasks.map (rawId hc g1) = (g2.node n2).initTasks.map (rawId hc g2) :=
+  fullId_inj hc hinj hemb g1 g2 n1 n2 h
+
+/-- … hence the same *multiset* of pre-task identifiers (whatever the order `hc.le`). -/
+theorem full_identifier_pretask_multiset (hc : HC Nat) (hinj : ∀ a b, hc.H a = hc.H b → a = b)
+    (hemb : ∀ d, hc.emb d = [256 + d]) (g1 g2 : Graph) (n1 n2 : Nat) (h : fullId hc g1 n1 = fullId hc g2 n2) :
+    (collectPreTasks g1 n1).map (rawId hc g1) ~ (collectPreTasks g2 n2).map (rawId hc g2) := by
+  have e := (fullId_inj hc hinj hemb g1 g2 n1 n2 h).2.1
+  exact (sortBy_perm hc.le _).symm.trans (by rw [e]; exact sortBy_perm hc.le _)
+
+/-- the ideal-hash hypotheses are consistent: `idealHC` satisfies them. -/
+theorem ideal_hash_exists : ∃ hc : HC Nat, (∀ a b, hc.H a = hc.H b → a = b) ∧ ∀ d, hc.emb d = [256 + d] :=
+  ⟨idealHC, idealHC_inj, idealHC_emb⟩
+
+/-! ## boundary of the domain -/
+
+/-- **every type of dict depth ≤ 1 is unambiguous.** -/
+theorem dict_depth_one_unamb (t : STy) (h : dictFree t = true) : ok (.dict t) := by
+  have := dict_free_need t h
+  simp [ok, this.1, this.2]
+
+/-- `Dict[str, Dict[str, int]]` is unambiguous. -/
+theorem dict_dict_int_unamb : ok (.dict (.dict .int)) := by decide
+
+/-- `Dict[str, List[Dict[str, List[int]]]]` is **not** unambiguous (`07 ∈ fts ∩ need`). -/
+theorem dict_list_dict_list_not_unamb : ¬ ok (.dict (.list (.dict (.list .int)))) := by decide
+
+/-- **known finding F2** (inside the documented domain, outside `ok`): two different values of type
+    `Dict[str, List[Dict[str, List[int]]]]` with the same hashed bytes. -/
+theorem collision_dict2_via_list :
+    encVal cfg0 mt0 f2a = encVal cfg0 mt0 f2b ∧ canon cfg0 mt0 f2a ≠ canon cfg0 mt0 f2b := by
+  refine ⟨by decide, ?_⟩
+  simp [f2a, f2b, canon, canonPairs, canonItems, dropped, sortBy, insertBy, bytesLe]
+
+/-- both F2 values are well-typed: only `ok` fails. -/
+theorem collision_dict2_via_list_typed :
+    VT mt0 (.dict (.list (.dict (.list .int)))) f2a ∧ VT mt0 (.dict (.list (.dict (.list .int)))) f2b := by
+  exact ⟨vtb_sound _ _ _ (by decide), vtb_sound _ _ _ (by decide)⟩
+
+/-- **control characters** (outside the domain): the string `"x\x03b\x03y"` under key `a` collides with the
+    two-item dict `{"a":"x","b":"y"}` although `Dict[str, str]` is unambiguous. -/
+theorem collision_ctrl_string :
+    encVal cfg0 mt0 (.dict [[97]] [.str [120, 3, 98, 3, 121]])
+      = encVal cfg0 mt0 (.dict [[97], [98]] [.str [120], .str [121]]) ∧ ok (.dict .str) := by
+  refine ⟨by decide, by decide⟩
+
+/-- F2 at identifier level: the two single-node graphs holding the F2 values share raw and full identifier
+    under *every* hash structure. -/
+theorem collision_dict2_via_list_identifier {D : Type} (hc : HC D) :
+    rawId hc gF2a 0 = rawId hc gF2b 0 ∧ fullId hc gF2a 0 = fullId hc gF2b 0 := by
+  have h : rawId hc gF2a 0 = rawId hc gF2b 0 := by
+    simp only [rawId, Graph.size, gF2a, gF2b, List.length, rawAt]
+    congr 1
+  refine ⟨h, ?_⟩
+  unfold fullId
+  rw [h]
+  rfl
+
+/-! ## non-vacuity -/
+
+/-- (the graph `gEx`: a configuration with an int, a list of optional strings and a nested configuration, typed by
+    `libEx`) a well-typed nested value of the unambiguous type `Dict[str, Dict[str, int]]`, and an admissible continuation. -/
+example : VT mt0 (.dict (.dict .int)) (.dict [[97], [98]] [.dict [[107]] [.int 1], .dict [] []]) ∧
+    ok (.dict (.dict .int)) ∧ safe [3, 110, 5, 6] ∧ Avoid (need (.dict (.dict .int))) [3, 110, 5, 6] := by
+  refine ⟨vtb_sound _ _ _ (by decide), by decide, by simp [safe], ?_⟩
+  exact (argument_boundary_admissible _ [110] [6] (by simp [noTag])).2.2
+
+example : LibTyped libEx gEx ∧ gEx.size + 1 < 2^64 := by
+  refine ⟨?_, by decide⟩
+  intro n
+  match n with
+  | 0 => exact ⟨by simp [gEx, Graph.node, noTag], by simp [ArgsTyped, gEx, Graph.node, libEx, noTag, VT, ok, dropped]⟩
+  | 1 => exact ⟨by simp [gEx, Graph.node, noTag], by simp [ArgsTyped, gEx, Graph.node, libEx, noTag, VT, ok]⟩
+  | n + 2 => exact ⟨by simp [gEx, Graph.node, noTag], by simp [ArgsTyped, gEx, Graph.node]⟩
+
 end XpmVerif.C03
